@@ -271,7 +271,7 @@ def gen_plan(verif_seed, run):
     ops = []
     saves = {"process": [], "curve": [], "fn": [], "cond": []}
     weights = [("save_process", 34), ("load_process", 20), ("save_curve", 7), ("load_curve", 6), ("save_fn", 6), ("load_fn", 5),
-               ("save_cond", 3), ("load_cond", 3), ("load_membrane", 4), ("restart", 7)]
+               ("save_cond", 3), ("load_cond", 3), ("load_membrane", 4), ("restart", 7), ("delete_process", 4)]
     # swarm: drop some op kinds for this run
     enabled = [k for k, _ in weights if k in ("save_process", "load_process") or o.random() < 0.8]
     perm_listing = o.random() < 0.7
@@ -344,6 +344,10 @@ def gen_plan(verif_seed, run):
             op["dir"] = o.choice(dirs)
         elif k == "restart":
             op["skew"] = o.random() < 0.4
+        elif k == "delete_process":
+            if not saves["process"]:
+                continue
+            op["of"] = o.choice(saves["process"])
         # clock
         if k == "save_process":
             earlier = [s for s in saves["process"] if s != op["id"]]
@@ -553,6 +557,18 @@ def execute(ctx, plan, stats=None):
             if k == "restart":
                 new_session(op.get("skew"))
                 rec["gen"] = gen
+                trace.append(rec)
+                continue
+            if k == "delete_process":
+                # the user removes an earlier result directory by hand (not a library call)
+                e = entries.pop(op["of"], None)
+                if e is None:
+                    rec["skipped"] = "nothing saved"
+                else:
+                    import shutil
+                    shutil.rmtree(os.path.join(root, e["path"]))
+                    rec["deleted"] = _abstract(e["path"], names)
+                    st["user_deletes"] = st.get("user_deletes", 0) + 1
                 trace.append(rec)
                 continue
             if not sess.alive:
